@@ -24,9 +24,10 @@ _SEEK = {"w_inblock": (1, "write mode, target inside the buffered block", "thoro
 for _n, (_d, _txt, _tier) in _SEEK.items():
     ob(f"bit_seek_{_n}", "C05", entry="h_bitseek", enforce="Hbitseek", defines=[f"SEEK_DOM={_d}"], timeout=900, tier=_tier,
        domain=_txt, **BSW)
-ob("bit_w2r_blk0", "C05", entry="h_write2read", enforce="HIwrite2read", defines=["SW_DOM=1"], timeout=600,
+ob("bit_w2r_blk0", ["C05", "C04"], entry="h_write2read", enforce="HIwrite2read", defines=["SW_DOM=1"], timeout=600,
    domain="the first block is buffered (block_offset == 0)", **BSW)
-ob("bit_w2r_blkN", "C05", entry="h_write2read", enforce="HIwrite2read", defines=["SW_DOM=2"], timeout=600,
+ob("bit_w2r_blkN", ["C05", "C04"],  # (C04: n-bit / compressed layouts read through Hbitseek; seeded change C04-m6)
+   entry="h_write2read", enforce="HIwrite2read", defines=["SW_DOM=2"], timeout=600,
    domain="a later block is buffered (block_offset >= BITBUF_SIZE)", **BSW)
 # -DBSW_SIZE adds "the element on disk does not extend beyond max_offset" to the post-states: FAILS on HEAD (HIbitflush write-out size)
 ob("bit_w2r_blkN_size", "C05", entry="h_write2read", enforce="HIwrite2read", defines=["SW_DOM=2", "BSW_SIZE"], timeout=600, tier="thorough",
